@@ -195,7 +195,8 @@ Definition in_range256 (z : Z) : bool := (0 <=? z) && (z <? two256).
 
 Definition P_C02_block (wa : list addr) (prev : snapshot) (b : blk) : bool :=
   let price := g_gasPrice (sn_params prev) in
-  (negb (no_evm_txs prev b) ||
+  ((* blocks with contract executions are included: the histories watch every address their
+      programs can pay and contain no program that destroys value *)
    (snap_supply wa (k_snap b) =?
       snap_supply wa prev + withdrawn_in b - amountPerPower * expected_slash prev b
       - (match h_proposer (k_hdr b) with Some _ => 0 | None => block_fees price b end)))
@@ -371,7 +372,7 @@ Definition P_C14_jail_block (prev : snapshot) (b : blk) : bool :=
     | None => jailed
     | Some d => negb jailed && eqb_list Z.eqb (sv_power <$> dv_stakes d) (sv_power <$> dv_stakes x.2)
     end) (all_dels prev).
-Definition P_C14 (c : acase) : bool := forall_blocks c (λ prev b, P_C14_block prev b && P_C14_jail_block prev b).
+Definition P_C14_stake (c : acase) : bool := forall_blocks c (λ prev b, P_C14_block prev b && P_C14_jail_block prev b).
 
 (* ------------------------------------------------------------------ C10: validator updates *)
 Definition apply_ups (set : list (addr * Z)) (ups : list (addr * Z)) : option (list (addr * Z)) :=
@@ -451,6 +452,36 @@ Definition tally_ok (p : prop_view) : bool :=
   && forallb (λ v : addr * Z * Z, (v.2 =? -1) || ((0 <=? v.2) && (v.2 <? Z.of_nat (length (pv_options p))))) (pv_voters p).
 
 Definition sn_prop (sn : snapshot) (h : hash) : option prop_view := mjoin (assoc h (sn_props sn)).
+
+(* C14, governance side: evidence against a validator shrinks its recorded weight in every open
+   proposal by the slash percentage (once per evidence item; a weight that reaches 0 leaves the
+   voter table), the proposal's total shrinks by the same amounts, and the votes it had given shrink
+   with it: the tallies stay the sums of the recorded weights *)
+Definition slash_once (ratio p : Z) : Z := p - (p * ratio) / 100.
+Fixpoint slash_n (ratio : Z) (n : nat) (p : Z) : Z :=
+  match n with O => p | S k => let q := slash_once ratio p in if q <=? 0 then 0 else slash_n ratio k q end.
+Definition P_C14_gov_block (prev : snapshot) (b : blk) : bool :=
+  match h_evidence (k_hdr b) with
+  | [] => true
+  | evi =>
+    let ratio := g_slashRatio (sn_params prev) in
+    forallb (λ hp : hash * option prop_view,
+      match hp.2, sn_prop (k_snap b) hp.1 with
+      | Some p0, Some p1 =>
+          if pv_frozen p0 then true else
+          let lost := foldr (λ v acc, (v.1.2 - slash_n ratio (count_occ_addr v.1.1 evi) v.1.2) + acc) 0 (pv_voters p0) in
+          forallb (λ v0 : addr * Z * Z,
+             let expect := slash_n ratio (count_occ_addr v0.1.1 evi) v0.1.2 in
+             match List.find (λ v1 : addr * Z * Z, (v1.1.1 =? v0.1.1)%N) (pv_voters p1) with
+             | Some v1 => v1.1.2 =? expect
+             | None => expect <=? 0
+             end) (pv_voters p0)
+          && (pv_total p1 =? pv_total p0 - lost)
+          && tally_ok p1
+      | _, _ => true
+      end) (sn_props prev)
+  end.
+Definition P_C14 (c : acase) : bool := P_C14_stake c && forall_blocks c P_C14_gov_block.
 
 (* the option documents as submitted, to know what a winning option asks for *)
 Definition submitted_opts (bs : list blk) (ph : hash) : list (N * option params) :=
